@@ -9,6 +9,46 @@ import (
 
 var pool = []string{"", "1", "1.0", "1k", "1Ki", "0x10", "NaN", "nan", "-0", "abc", "12abc", "1.2.3k", "10", "9"}
 
+// every prefix letter, with and without i, with and without b/B; fractional and huge mantissas
+var prefixPool = func() []string {
+	var l []string
+	for _, p := range []string{"k", "K", "M", "G", "T", "P", "E", "Z", "Y"} {
+		l = append(l, "1"+p, "1"+p+"i", "2"+p+"B", "3"+p+"ib", "1.5"+p+"i", ".5"+p)
+	}
+	return append(l, "1Yi", "999Y", "1Zi", "3Zi", "999Yi", "1023Zi", "1000Z", "1", "1000000000000000000000", "")
+}()
+
+// near-ties across prefixes and spellings; float literals next to suffixed forms
+var tiePool = []string{"1024Ki", "1Mi", "1.048576M", "1048576", "1000k", "1M", "1e6", "1000000", "1048576.0", "1024K", "1Ki", "1.024k",
+	"1024", "1e3", "1k", "1000", "0.001M", "1kB", "1Kb", "1024Yi", "1.0Zi", "1024Zi", "1Yi", "1e24", "1Y", "1000Z"}
+
+// literals and non-literals around strconv.ParseFloat
+var litPool = []string{"Inf", "-inf", "+Infinity", "infinit", "NaN", "nan", "+nan", "1e999", "-5", "-5k", "1_000", "1__0", "0x1p4", "0x10", "0x_1p0",
+	"1e-400", ".", "1.", ".5", "1.2.3", "5ms", "x9G", "-0", "0", "+1", "1e5", "1E2k", "12abc", "abc", "", "1e400M"}
+
+// pickValues chooses the values of a scenario from one themed pool (or a mix).
+func pickValues(r *hx.Rand) []string {
+	var src []string
+	switch r.Intn(8) {
+	case 0, 1, 2:
+		src = pool
+	case 3, 4:
+		src = prefixPool
+	case 5:
+		src = tiePool
+	case 6:
+		src = litPool
+	default:
+		src = append(append(append(append([]string(nil), pool...), prefixPool...), tiePool...), litPool...)
+	}
+	nv := 2 + r.Intn(4)
+	vals := make([]string, nv)
+	for i := range vals {
+		vals[i] = hx.Pick(r, src)
+	}
+	return vals
+}
+
 var keyPool = []string{"a", "b", "/x", "/y", ".name", ".fullname", ".config", "a", "/x", ".config"}
 
 func genSpec(r *hx.Rand, vals []string, dupOK bool) SpecT {
@@ -91,11 +131,7 @@ func genResult(r *hx.Rand, vals []string, i int, unitProj bool) ResT {
 func genScenario(r *hx.Rand) Scenario {
 	var sc Scenario
 	// the values of this scenario: a few of the pool, so that equal keys and ties occur
-	nv := 2 + r.Intn(4)
-	vals := make([]string, nv)
-	for i := range vals {
-		vals[i] = hx.Pick(r, pool)
-	}
+	vals := pickValues(r)
 	konly := r.Chance(1, 5) // K-only scenario: duplicates in fixed lists, no filtering, interleaving
 	sc.S = !konly
 	nproj := 1
